@@ -51,3 +51,29 @@ Fixpoint block_trace (env : envp) (txs : list (txp * interp)) (s : state) : list
       let r := handle_invoke env tx ip (cache_reset s) in
       (tx, cache_reset s, r) :: (if stops (r_status r) then [] else block_trace env rest (r_state r))
   end.
+
+(** isCharge := !sysTransFlag && tx.GasPrice != 0 *)
+Definition is_charge (tx : txp) : bool := negb (t_sys tx) && negb (t_price tx =? 0).
+
+(** The property for one successful transaction that ran with outcome [o]: the cache is empty
+    afterwards (nothing is left that a later Commit could publish again), the store is untouched,
+    and the block view is the old one with the execution's writes applied once and, when the
+    transaction is charged, the fee [r_gas r] moved on top of them. *)
+Definition success_commits (tx : txp) (before : state) (o : outcome) (r : result) : Prop :=
+  st_cache (r_state r) = [] /\ st_store (r_state r) = st_store before /\
+  let l1 := apply_layer (o_cache o) (abs_block before) in
+  if is_charge tx then
+    r_fee_events r = fee_events (r_gas r) /\
+    r_events r = o_events o + N.of_nat (length (fee_events (r_gas r))) /\
+    fee_moved (t_payer tx) (r_gas r) l1 (abs_block (r_state r))
+  else r_fee_events r = [] /\ r_events r = o_events o /\ abs_block (r_state r) = l1.
+
+(** sc.Gas only decreases (CheckUseGas is its only writer) *)
+Definition interp_gas_ok (ip : interp) : Prop :=
+  forall s g o, ip s g = Some o -> o_left o <= g.
+
+(** the three products of the pre-checks do not wrap *)
+Definition no_wrap3 (codegas : N) (tx : txp) : Prop :=
+  FEE_MIN_TRANSACTION_GAS * t_price tx < two64 /\
+  t_limit tx * t_price tx < two64 /\
+  code_len_gas (t_codelen tx) codegas * t_price tx < two64.
